@@ -27,8 +27,50 @@ Theorem C07_put_overflow : forall k bits data offset value len,
   8 * zlen data < offset + len -> put k bits data offset value len = Err BufferOverflow.
 Proof. exact put_overflow. Qed.
 
-Example C07_example : put KI 16 [255; 0; 255] 5 (-3) 6 = Ok ([255; 160; 255], 11).
-Proof. vm_compute. reflexivity. Qed.
+(** Reading a [len]-bit field: the carrier value v assembled by the loop holds, in its bit m (m < len),
+    buffer bit offset+len-1-m, and zeros above; the result is its sign-fixed form, the cursor advances by len. *)
+Theorem C07_parse_bits : forall k bits data offset len,
+  8 <= bits -> 1 <= len <= bits -> 0 <= offset -> offset + len <= 8 * zlen data -> bytes_ok data = true ->
+  exists v, canon k bits v /\
+            (forall m, 0 <= m < bits -> Z.testbit v m = (m <? len) && bitat data (offset + len - 1 - m)) /\
+            parse k bits data offset len = (r <- sign_fix k bits v len ;; Ok (r, offset + len)).
+Proof. exact parse_bits. Qed.
+
+(** reading the same position returns the written value, for every representable value: unsigned
+    0 .. 2^len - 1, two's complement -2^(len-1) .. 2^(len-1) - 1, sign-magnitude -(2^(len-1)-1) .. 2^(len-1)-1 *)
+Theorem C07_roundtrip : forall k bits data offset value len,
+  8 <= bits -> 1 <= len <= bits -> 0 <= offset -> offset + len <= 8 * zlen data -> bytes_ok data = true ->
+  representable k len value ->
+  exists data', put k bits data offset value len = Ok (data', offset + len) /\
+                parse k bits data' offset len = Ok (value, offset + len).
+Proof. exact put_parse_roundtrip. Qed.
+Check C07_roundtrip : forall k bits data offset value len,
+  8 <= bits -> 1 <= len <= bits -> 0 <= offset -> offset + len <= 8 * zlen data -> bytes_ok data = true ->
+  match k with
+  | KU => 0 <= value < 2 ^ len
+  | KI => - 2 ^ (len - 1) <= value < 2 ^ (len - 1)
+  | KSM => - (2 ^ (len - 1) - 1) <= value <= 2 ^ (len - 1) - 1
+  end ->
+  exists data', put k bits data offset value len = Ok (data', offset + len) /\
+                parse k bits data' offset len = Ok (value, offset + len).
+
+Theorem C07_parse_overflow : forall k bits data offset len,
+  8 * zlen data < offset + len -> parse k bits data offset len = Err BufferOverflow.
+Proof. exact parse_overflow. Qed.
+
+(** neither direction can panic, whatever the buffer content, offset or (carrier) value *)
+Theorem C07_no_panic : forall k bits data offset value len,
+  8 <= bits -> 1 <= len <= bits -> 0 <= offset -> bytes_ok data = true ->
+  put k bits data offset value len <> Panic /\ parse k bits data offset len <> Panic.
+Proof. intros. split; [apply put_no_panic|apply parse_no_panic]; assumption. Qed.
+
+Example C07_example : put KI 16 [255; 0; 255] 5 (-3) 6 = Ok ([255; 160; 255], 11) /\ parse KI 16 [255; 160; 255] 5 6 = Ok (-3, 11).
+Proof. split; vm_compute; reflexivity. Qed.
+Example C07_example_sm : put KSM 8 [0; 0] 3 (-5) 8 = Ok ([16; 160], 11) /\ parse KSM 8 [16; 160] 3 8 = Ok (-5, 11) /\ representable KSM 8 (-5).
+Proof. repeat split; vm_compute; try reflexivity; discriminate. Qed.
 
 Print Assumptions C07_put_bits.
 Print Assumptions C07_put_overflow.
+Print Assumptions C07_parse_bits.
+Print Assumptions C07_roundtrip.
+Print Assumptions C07_no_panic.
